@@ -18,6 +18,7 @@ import (
 	"strings"
 
 	cppbinary "github.com/microsoft/yardl/tooling/internal/cpp/binary"
+	cppcommon "github.com/microsoft/yardl/tooling/internal/cpp/common"
 	"github.com/microsoft/yardl/tooling/pkg/dsl"
 )
 
@@ -395,6 +396,11 @@ func C05Inverse(depth int) {
 // wrapper chains (outermost first): o = optional, v = vector, s = stream (written / read in batches)
 var c05Chains = []string{"", "o", "v", "s", "vo", "so"}
 
+// chains whose emitted conversion is ill-formed C++ in the unchanged tree (f = fixed-length vector): vector of vector and
+// batched stream of vector (the inner loop re-declares `i` and `item`), optional of vector (resize / subscript on the
+// std::optional), fixed-length vector (resize on std::array)
+var c05IllFormedChains = []string{"vv", "sv", "ov", "f"}
+
 func c05WrapChain(chain string, leaf dsl.Type) dsl.Type {
 	t := leaf
 	for i := len(chain) - 1; i >= 0; i-- {
@@ -405,6 +411,9 @@ func c05WrapChain(chain string, leaf dsl.Type) dsl.Type {
 			t = c05Gt(&dsl.Vector{}, t)
 		case 's':
 			t = c05Gt(&dsl.Stream{}, t)
+		case 'f':
+			l := uint64(3)
+			t = c05Gt(&dsl.Vector{Length: &l}, t)
 		}
 	}
 	return t
@@ -568,7 +577,10 @@ func c05ExpectedFlow(chain string) []string {
 			src += ".value()"
 			closing = append([]string{"end"}, closing...)
 		default:
-			ev = append(ev, "resize "+dst+" "+src, "for-each "+src, "decl-item")
+			if chain[i] != 'f' { // a fixed-length destination needs no sizing
+				ev = append(ev, "resize "+dst+" "+src)
+			}
+			ev = append(ev, "for-each "+src, "decl-item")
 			closing = append([]string{"store-item " + dst, "end"}, closing...)
 			src += "[i]"
 			dst = "item"
@@ -578,10 +590,87 @@ func c05ExpectedFlow(chain string) []string {
 	return append(ev, closing...)
 }
 
-func C05NestedConversion(write int) {
-	from, to := intPrimsC05[verifChoose("from", len(intPrimsC05))], intPrimsC05[verifChoose("to", len(intPrimsC05))]
+// c05WellFormed gives the read-back statements C++ scoping and typing: a name may not be re-declared while an outer
+// declaration of it is still in use (the emitted element expressions refer to the loop variable / item of *each* level),
+// `.resize(n)` exists on std::vector only, `x[i] = ..` needs a std::vector or std::array.
+// Returns the first violated rule ("" if none) and the kind of the offending target.
+func c05WellFormed(events []string, dstType string) (redeclared, badResize, badStore string, arrayResize map[int]bool) {
+	arrayResize = map[int]bool{}
+	scopes := []map[string]string{{"dst": dstType}}
+	lookup := func(name string) (string, bool) {
+		for i := len(scopes) - 1; i >= 0; i-- {
+			if t, ok := scopes[i][name]; ok {
+				return t, true
+			}
+		}
+		return "", false
+	}
+	kind := func(t string) string {
+		switch {
+		case strings.HasPrefix(t, "std::vector<"):
+			return "vector"
+		case strings.HasPrefix(t, "std::array<"):
+			return "array"
+		case strings.HasPrefix(t, "std::optional<"):
+			return "optional"
+		}
+		return "scalar"
+	}
+	for ei, e := range events {
+		head, rest, _ := c05Cut(e, " ")
+		target, _, _ := c05Cut(rest, " ")
+		f := []string{head, target}
+		switch f[0] {
+		case "if-has-value":
+			scopes = append(scopes, map[string]string{})
+		case "for-each":
+			if _, ok := lookup("i"); ok && redeclared == "" {
+				redeclared = "i"
+			}
+			scopes = append(scopes, map[string]string{"i": "size_t"})
+		case "decl-item":
+			if _, ok := lookup("item"); ok && redeclared == "" {
+				redeclared = "item"
+			}
+			scopes[len(scopes)-1]["item"] = strings.TrimPrefix(e, "decl-item ")
+		case "resize":
+			if t, _ := lookup(f[1]); kind(t) != "vector" {
+				if badResize == "" {
+					badResize = kind(t)
+				}
+				if kind(t) == "array" {
+					arrayResize[ei] = true // reported by the resize rule; a fixed-length destination needs no sizing
+				}
+			}
+		case "store-item":
+			if t, _ := lookup(f[1]); kind(t) != "vector" && kind(t) != "array" && badStore == "" {
+				badStore = kind(t)
+			}
+		case "end":
+			if len(scopes) > 1 {
+				scopes = scopes[:len(scopes)-1]
+			}
+		}
+	}
+	return
+}
+
+func C05NestedConversion(write int) { c05NestedConversion(write, c05Chains, intPrimsC05) }
+
+// C05NestedConversionIllFormed: the same obligations for the wrapper chains of c05IllFormedChains, both directions.
+// all = 0 restricts the integer pairs to {int8, uint16, int32, uint64} (every pair is covered for the well-formed chains).
+func C05NestedConversionIllFormed(all int) {
+	prims := intPrimsC05
+	if all == 0 {
+		prims = []string{"int8", "uint16", "int32", "uint64"}
+	}
+	c05NestedConversion(verifChoose("write", 2), c05IllFormedChains, prims)
+}
+
+func c05NestedConversion(write int, chains []string, prims []string) {
+	from, to := prims[verifChoose("from", len(prims))], prims[verifChoose("to", len(prims))]
 	verifAssume(from != to)
-	chain := c05Chains[verifChoose("chain", len(c05Chains))]
+	chain := chains[verifChoose("chain", len(chains))]
 	verifOut("from", from)
 	verifOut("to", to)
 	verifOut("chain", chain)
@@ -611,14 +700,39 @@ func C05NestedConversion(write int) {
 	if r.unknown != "" {
 		return
 	}
+	// C++ scoping / typing of the statements; `dst` is declared by the caller with the destination type (a batched stream is a std::vector)
+	dstT := oldT
+	if !isWrite {
+		dstT = newT
+	}
+	if g, ok := dstT.(*dsl.GeneralizedType); ok {
+		if _, isStream := g.Dimensionality.(*dsl.Stream); isStream {
+			c := *g
+			c.Dimensionality = &dsl.Vector{}
+			dstT = &c
+		}
+	}
+	redeclared, badResize, badStore, arrayResize := c05WellFormed(r.events, cppcommon.TypeSyntax(dstT))
+	verifOut("redeclared", redeclared)
+	verifOut("resize-on", badResize)
+	verifOut("subscript-store-on", badStore)
+	verifAssert("no-redeclared-variable", redeclared == "")
+	verifAssert("resize-only-on-vector", badResize == "")
+	verifAssert("subscript-store-only-on-vector-or-array", badStore == "")
 	// data flow: element read from the source container, result stored into the destination container
 	want := c05ExpectedFlow(chain)
-	flowOK := len(want) == len(r.events)
+	var got []string
+	for i, e := range r.events {
+		if !arrayResize[i] {
+			got = append(got, e)
+		}
+	}
+	flowOK := len(want) == len(got)
 	for i := 0; flowOK && i < len(want); i++ {
 		if want[i] == "decl-item" {
-			flowOK = strings.HasPrefix(r.events[i], "decl-item ") && strings.Contains(r.events[i], cppIntType(dstP))
+			flowOK = strings.HasPrefix(got[i], "decl-item ") && strings.Contains(got[i], cppIntType(dstP))
 		} else {
-			flowOK = want[i] == r.events[i]
+			flowOK = want[i] == got[i]
 		}
 	}
 	verifOut("flow", strings.Join(r.events, "; "))
